@@ -4,7 +4,10 @@
 (* State t = [held : set of request numbers delivered to the application and not yet consumed,    *)
 (*            running : BOOLEAN, n : number of requests delivered]                                *)
 (* TStep(t, op) = [t, ret, out]; out = the responses handed to the transport in this step:        *)
-(* <<request number, payload>> with payload "answer" (the application's) or "empty".              *)
+(* <<request number, payload>> with payload "answer" (the application's) or "empty"; the response *)
+(* is addressed to the node address the request came from (sender id, source socket) whatever the  *)
+(* node knows about the sender - MC_Talk keeps the source per request and the trace monitor        *)
+(* compares the address of every TALKRESP with the source of its request.                          *)
 EXTENDS Integers, Sequences, FiniteSets
 
 T0 == [held |-> {}, running |-> TRUE, n |-> 0]
